@@ -34,12 +34,17 @@ class Eval:
     """evaluates origin expressions over an environment {leaf expr -> raw 64-bit pattern};
     `atoms` maps opaque boolean atoms (e.g. calls) to truth values supplied by the rule."""
 
-    def __init__(self, env, opaque=None):
+    def __init__(self, env, opaque=None, leaf=None):
         self.env = env
         self.opaque = opaque or {}
+        self.leaf = leaf
 
     def val(self, e):
         """returns (raw_bits, type_string)"""
+        if self.leaf is not None:
+            r = self.leaf(e)
+            if r is not None:
+                return (r & M64, "usize") if not isinstance(r, tuple) else r
         if e in self.env:
             v = self.env[e]
             return (v[0], v[1]) if isinstance(v, tuple) else (v & M64, "usize")
@@ -73,6 +78,13 @@ class Eval:
             if last in ("wrapping_sub",):
                 (a, ta), (b, tb) = self.val(e[2][0]), self.val(e[2][1])
                 return ((a - b) & ((1 << bits_of(ta)) - 1), ta)
+            if last in ("checked_add",):
+                (a, ta), (b, tb) = self.val(e[2][0]), self.val(e[2][1])
+                if a + b > (1 << bits_of(ta)) - 1:
+                    raise Unsupported("checked_add overflow (None)")
+                return (a + b, ta)
+            if last in ("ok_or", "ok_or_else", "unwrap_or", "unwrap"):
+                return self.val(e[2][0])
             if last in ("wrapping_add",):
                 (a, ta), (b, tb) = self.val(e[2][0]), self.val(e[2][1])
                 return ((a + b) & ((1 << bits_of(ta)) - 1), ta)
